@@ -50,7 +50,7 @@ var vfRouteClass = map[string]string{
 // is the credential shape one the class accepts?
 func vfShapeAcceptable(class, shape string, webuiHasPassword bool) (bool, bool) {
 	switch shape {
-	case "none", "basic-wrong", "expired-cookie", "forged-cookie", "wrongkind-cookie", "ipcert-outside", "denied-key-cert", "foreign-cert":
+	case "none", "basic-wrong", "expired-cookie", "forged-cookie", "wrongkind-cookie", "ipcert-outside", "ipcert-outside-fwd", "denied-key-cert", "foreign-cert":
 		return false, true
 	case "lowlevel-cookie": // an authentic session below the web-UI level
 		switch class {
@@ -163,7 +163,7 @@ func init() {
 			r.Cert = a.Cert
 		case "denied-key-cert":
 			a := w.art("last:usercert:mallory")
-			if a == nil || len(w.cfg.DenyKeys) == 0 || a.KeyName != w.cfg.DenyKeys[0] {
+			if a == nil || !containsStr(w.cfg.DenyKeys, a.KeyName) {
 				return nil
 			}
 			r.Cert = a.Cert
@@ -186,6 +186,21 @@ func init() {
 					r.Peer = netip.AddrFrom4([4]byte{byte(v >> 24), byte(v >> 16), byte(v >> 8), byte(v)}).String()
 				}
 			}
+		case "ipcert-outside-fwd":
+			// from the local host (outside the netblocks), with forwarding headers naming an address inside them
+			a := w.art("last:ipcert")
+			if a == nil || len(a.Nets) == 0 {
+				return nil
+			}
+			pf, err := netip.ParsePrefix(a.Nets[0])
+			if err != nil || pf.Contains(netip.MustParseAddr("127.0.0.1")) {
+				return nil
+			}
+			r.Cert = a.Cert
+			r.Peer = "127.0.0.1"
+			inside := pf.Masked().Addr().Next().String()
+			r.Header["X-Forwarded-For"] = inside
+			r.Header["X-Real-Ip"] = inside
 		case "csrf":
 			r.Cookies[authCookieName] = mint(AuthTypeU2F|AuthTypePassword|need, time.Hour)
 			switch st.C {
@@ -227,7 +242,7 @@ func init() {
 	vfProfiles["C06"] = &vfProfile{
 		Gen:        genRoutePlan,
 		Nontrivial: func(res *vfResult) bool { return res.Probes["probes-judged"] >= 5 },
-		Rule:       "for every route registered on the service multiplexer of the current tree (route table generated from main() at check time): credential shapes {none, wrong basic-auth, expired cookie, cookie re-signed with a foreign key, other-kind token as cookie, authentic cookie below the web-UI level, keymaster client certificate alone (verified leaf->CA chain), certificate of a deny-listed key, certificate of an untrusted CA, IP-restricted certificate from outside its netblocks, valid cookie with another site's Origin/Referer} x methods GET/POST/PUT/DELETE/HEAD/OPTIONS x parameters that would perform the route's action on another user; effects observed at the seams (primary-store rows before/after, second-factor backend transactions, signed material or session cookies in the response, the victim's token names in the body). non-trivial = at least 5 probes judged in the run; distinct = distinct canonical event log",
+		Rule:       "for every route registered on the service multiplexer of the current tree (route table generated from main() at check time): credential shapes {none, wrong basic-auth, expired cookie, cookie re-signed with a foreign key, other-kind token as cookie, authentic cookie below the web-UI level, keymaster client certificate alone (verified leaf->CA chain), certificate of a deny-listed key, certificate of an untrusted CA, IP-restricted certificate from outside its netblocks (also from the local host with forwarding headers naming an inside address), valid cookie with another site's Origin/Referer} x methods GET/POST/PUT/DELETE/HEAD/OPTIONS x parameters that would perform the route's action on another user; effects observed at the seams (primary-store rows before/after, second-factor backend transactions, signed material or session cookies in the response, the victim's token names in the body). non-trivial = at least 5 probes judged in the run; distinct = distinct canonical event log",
 		Setup:      routeSetup,
 	}
 }
@@ -237,6 +252,15 @@ func pick2(i int, l ...string) string { return l[i%len(l)] }
 const vfSecretTokenName = "alices-private-token-name"
 
 func routeSetup(w *vfWorld) {
+	// "whenever a request is admitted, the identity and level it is admitted with were really established by the
+	// credential presented": the session monitor's findings about a re-issued session seen through C06's eyes
+	w.observers = append(w.observers, func(p *vfPrepared, ctx *vfReqCtx, resp *vfResp) {
+		for _, v := range w.res.Violations {
+			if v.Prop == "C05" && v.Step == w.stepIdx && (v.Class == "level-for-other-user" || v.Class == "subject-changed" || v.Class == "level-not-proven") {
+				w.violate("C06", "identity-not-established", "identity-not-established:"+v.Class+":"+p.step.Op, v.Detail)
+			}
+		}
+	})
 	w.observers = append(w.observers, func(p *vfPrepared, ctx *vfReqCtx, resp *vfResp) {
 		pr := p.intent.Probe
 		if pr == nil {
@@ -287,6 +311,11 @@ func genRoutePlan(r *rand.Rand, tier string) *vfPlan {
 		CertBackends: pick(r, [][]string{{"U2F"}, {"U2F", "TOTP", "IPCertificate"}, {"password", "U2F"}, {"SymantecVIP", "IPCertificate"}}),
 		WebUIBackends: pick(r, [][]string{{"U2F"}, {"U2F", "TOTP"}, {"password", "U2F"}, {"U2F", "SymantecVIP", "BootstrapOTP"}}),
 		DenyKeys:      []string{"user_rsa2048_4"}}}
+	if chance(r, 0.6) {
+		// a longer deny list, in the order the operator happened to write it
+		p.Cfg.DenyKeys = []string{"user_rsa2048_4", "user_rsa2048_3", "user_p256_1", "user_ed25519_3"}
+		r.Shuffle(len(p.Cfg.DenyKeys), func(i, j int) { p.Cfg.DenyKeys[i], p.Cfg.DenyKeys[j] = p.Cfg.DenyKeys[j], p.Cfg.DenyKeys[i] })
+	}
 	add := func(s vfStep) { p.Steps = append(p.Steps, s) }
 	add(vfStep{Op: "setup_totp", User: "alice"})
 	add(vfStep{Op: "setup_u2f", User: "alice", Target: "tok1"})
@@ -305,7 +334,16 @@ func genRoutePlan(r *rand.Rand, tier string) *vfPlan {
 		add(vfStep{Op: "mintsession", Sess: "web", User: "alice", N: int64(AuthTypeU2F | AuthTypePassword | AuthTypeTOTP | AuthTypeSymantecVIP)})
 		add(vfStep{Op: "oidc_authorize", Sess: "web", A: "clientA", L: []string{"method:nochallenge"}})
 	}
-	shapes := []string{"none", "basic-wrong", "expired-cookie", "forged-cookie", "wrongkind-cookie", "lowlevel-cookie", "usercert", "denied-key-cert", "foreign-cert", "ipcert-outside", "csrf", "csrf"}
+	if chance(r, 0.5) {
+		// mallory holds alice's password-level session as well as her own and proves her OWN second factor in a
+		// request that carries both cookies
+		add(vfStep{Op: "setup_totp", User: "mallory"})
+		add(vfStep{Op: "advance", D: "31s"})
+		add(vfStep{Op: "mintsession", Sess: "victim", User: "alice", N: int64(AuthTypePassword)})
+		add(vfStep{Op: "mintsession", Sess: "own", User: "mallory", N: int64(AuthTypePassword)})
+		add(vfStep{Op: pick(r, []string{"totp", "vipotp"}), Sess: "own", A: "cur", L: []string{"precookie:victim"}})
+	}
+	shapes := []string{"none", "basic-wrong", "expired-cookie", "forged-cookie", "wrongkind-cookie", "lowlevel-cookie", "usercert", "denied-key-cert", "foreign-cert", "ipcert-outside", "ipcert-outside-fwd", "csrf", "csrf"}
 	methods := []string{"GET", "POST", "POST", "PUT", "DELETE", "HEAD", "OPTIONS"}
 	n := 25 + r.IntN(40)
 	if tier == "thorough" {
